@@ -59,6 +59,7 @@ def modelOp (buffered gone : Bool) (c : Cfg B) (auto : Bool) (s : SSt) (op : Str
   else if op == "s" || op == "q" then
     fin s s!"S{s.stats.bytesSent}.{s.stats.packetsSent}.{s.stats.bytesDropped}.{s.stats.packetsDropped}" [] s.st auto
   else if op == "r" then fin s "ok0" [] s.st true
+  else if op == "R" then fin s "ok0" [] s.st auto
   else (s, "badop")
 
 def parseDs (t : String) : Nat × Nat :=
